@@ -306,6 +306,9 @@ def base_scenario(rng: random.Random, prop: str, **kn) -> dict:
         if rng.random() < 0.5:
             k = rng.randint(1, 3)
             scn["plan"]["steps"][0]["variables"] = [points[rng.randrange(npoints)] for _ in range(k)]
+    for smp in cfg.get("samplers", []):
+        if smp.get("method") == "sim/inject" and smp.get("shared") and rng.random() < 0.5:
+            smp.setdefault("options", {})["contract_shape"] = True
     # index maps that say the same for every function are sometimes written as a size-one array or a scalar
     # (the configuration's broadcasting convention)
     for sect in ("objectives", "nonlinear_constraints"):
